@@ -32,7 +32,7 @@ type SysOpts struct {
 	BoltSync     bool // keep fsync on (C15)
 	FreshMeta    bool // single-bucket systems: a restart comes back with an empty in-memory metadata store (the default
 	// configuration of the directfs backend), so every object is met without a metadata record
-	Skew         bool // keep the default time-skew limit (requests carrying a far-off x-amz-date are refused)
+	Skew bool // keep the default time-skew limit (requests carrying a far-off x-amz-date are refused)
 	// Wrap, when set, interposes on the Backend the front end is built on
 	// (schedule gates at backend-call granularity, C07).
 	Wrap func(gofakes3.Backend) gofakes3.Backend `json:"-"`
